@@ -75,7 +75,10 @@ class SmoothedLaplace(Distribution):
             x = np.array([x])
         elif isinstance(x, (list, tuple)):
             x = np.array(x)
-        return np.sum(np.log(0.5 / self.scale)) - np.sum(np.sqrt((x - self.location) ** 2 + self.beta) / self.scale)
+        log_norm = np.log(0.5 / self.scale)
+        if np.size(log_norm) == 1 and self.dim is not None and self.dim > 1:
+            log_norm = self.dim*np.ravel(log_norm)[0] # scalar scale broadcast over all dim coordinates
+        return np.sum(log_norm) - np.sum(np.sqrt((x - self.location) ** 2 + self.beta) / self.scale)
 
     def gradient(self, x):
         """
